@@ -306,6 +306,12 @@ func writeBaseline(cfg *runCfg, obls []*Obligation, engineErrors int) int {
 			out.Obligations[p] = append(out.Obligations[p], o.Name)
 		}
 	}
+	// clauses that exist by declaration even when no instruction instantiates them on this tree
+	for _, c := range declaredClauses {
+		for _, p := range c.props {
+			out.Obligations[p] = append(out.Obligations[p], c.name)
+		}
+	}
 	for p := range out.Obligations {
 		sort.Strings(out.Obligations[p])
 	}
@@ -328,6 +334,12 @@ func normClause(n string) string {
 		return reCallOrd.ReplaceAllString(n[i+1:], ":")
 	}
 	return n
+}
+
+// declaredClauses: filled by main from the contract set (one default field-protocol clause per type).
+var declaredClauses []struct {
+	name  string
+	props []string
 }
 
 func normRequires(n string) string {
